@@ -300,6 +300,7 @@ Definition distribute (s : state) (ks kd : nat) (dwells : arr string) (a : dista
                                 | (Ld', Some e) => (set_lw s1 kd Ld', Some e)
                                 | (Ld', None) =>
                                     let s2 := set_lw s1 kd Ld' in
+                                    let s2 := if (ks =? kd)%nat then condense_at s2 ks 2 (d_label a) else s2 in
                                     match comment (st_wl s2) (d_label a) with
                                     | (w1, Some e) => (set_wl s2 w1, Some e)
                                     | (w1, None) =>
